@@ -10,11 +10,13 @@ git -C /repo worktree add -q --detach "$wt" HEAD || exit 2
 trap 'git -C /repo worktree remove --force "$wt" >/dev/null 2>&1; rm -rf "$wt"' EXIT
 place=$(head -1 "$d/demo_test.go" | sed -n 's#^// place in: *##p' | tr -d ' \r')
 [ -z "$place" ] && { echo "no '// place in:' line"; exit 2; }
+race=""
+head -5 "$d/demo_test.go" | grep -q "run with: *-race" && race="-race"
 cd "$wt"
 cp "$d/demo_test.go" "$wt/$place/zz_seed_demo_test.go"
-if go test -vet=off -count=1 "./$place" >/tmp/seed_demo_clean.log 2>&1; then r3=pass; else r3=FAIL; fi
+if go test $race -vet=off -count=1 "./$place" >/tmp/seed_demo_clean.log 2>&1; then r3=pass; else r3=FAIL; fi
 git apply "$d/patch.diff" || { echo "patch does not apply to HEAD"; exit 2; }
-if go test -vet=off -count=1 "./$place" >/tmp/seed_demo_mut.log 2>&1; then r2=PASS; else r2=fail; fi
+if go test $race -vet=off -count=1 "./$place" >/tmp/seed_demo_mut.log 2>&1; then r2=PASS; else r2=fail; fi
 rm "$wt/$place/zz_seed_demo_test.go"
 if go test -vet=off -count=1 ./... >/tmp/seed_suite.log 2>&1; then r1=pass; else r1=FAIL; fi
 echo "suite-with-change=$r1 demo-with-change=$r2 demo-without-change=$r3"
